@@ -120,10 +120,9 @@ Qed.
 Lemma rblk_run g n0 c : c < n0 -> (forall u v b, In (u, v, b) (q_edges g) -> u < n0 /\ v < n0) ->
   forall toks z depth l S,
   rblkz z depth toks = true -> RInv n0 c z depth S l -> depth > 0 -> fresh g toks ->
-  match ring_trace S toks with [] => True | _ => False end ->
   Concl g n0 c l toks S.
 Proof.
-  intros CN GB. induction toks as [|t r IH]; intros z depth l S B LI DP FR RL; [discriminate B|].
+  intros CN GB. induction toks as [|t r IH]; intros z depth l S B LI DP FR; [discriminate B|].
   destruct LI as [LN LE [a [LC [LA LO]]] [LS1 [LS2 LS3]] LP [OK OB]].
   cbn [rblkz] in B.
   assert (FR' : fresh g r) by (intros b m IN; apply (FR b m); right; exact IN).
@@ -177,7 +176,7 @@ Proof.
     + destruct r; [|discriminate B].
       destruct (LS3 DP) as [st [Hst Hlo]]. assert (st = []) by (destruct st as [|x [|y st]]; rewrite Hst in LS1; cbn in LS1;
         [reflexivity|discriminate LS1|rewrite app_length in LS1; cbn in LS1; lia]). subst st. cbn in Hst.
-      unfold Concl. cbn [grun gstep bind ring_trace]. cbn [ring_trace] in RL.
+      unfold Concl. cbn [grun gstep bind ring_trace].
       split; [unfold rjoin; cbn; rewrite Hst; reflexivity|]. split; [|split; [|split]].
       * constructor; cbn; rewrite ?Hst; cbn; auto;
           try (exists c; split; [reflexivity|split; [lia|intros X; lia]]);
@@ -203,7 +202,6 @@ Proof.
     apply andb_prop in B. destruct B as [Bz B]. destruct z; try discriminate Bz.
     pose proof (LO DP eq_refl) as ALO. pose proof (LP ltac:(discriminate)) as PN.
     pose proof (FR b m (or_introl eq_refl)) as FG.
-    cbn [ring_trace] in RL.
     set (zv := marker_val m) in *. set (ob := option_map bchar b).
     assert (STEPJ : gstep false (rjoin g l) (TRing b m) =
               match add_ring l ob zv with Ok l1 => Ok (rjoin g l1) | Err e => Err e end).
@@ -260,7 +258,7 @@ Proof.
         - rewrite K4, K2. split; [exact LS1|]. split; [exact LS2|exact LS3].
         - intros _. exact K5.
         - split; [exact K6|exact K7]. }
-      pose proof (IH ZAtom depth l1 (toggle S zv) B LI1 DP FR' RL) as H. unfold Concl in H.
+      pose proof (IH ZAtom depth l1 (toggle S zv) B LI1 DP FR') as H. unfold Concl in H.
       destruct (grun false l1 r) as [l'|e'].
       * destruct H as [R2 [R3 [R4 [R5 R6]]]]. split; [exact R2|]. split; [exact R3|]. split; [exact R4|]. split.
         -- rewrite R5, K2. rewrite (count_atoms_cons (TRing b m) r). unfold count_atoms at 2. cbn. lia.
@@ -311,7 +309,7 @@ Proof.
   assert (FR' : fresh g r) by (intros b m IN; apply (FR b m); right; exact IN).
   assert (RL' : match ring_trace [] r with [] => True | _ => False end).
   { unfold rings_local in RL. cbn [ring_trace] in RL. destruct (ring_trace [] r); [exact I|discriminate RL]. }
-  pose proof (rblk_run g n c L GB r ZOpen 1 l1 [] B LI ltac:(lia) FR' RL') as H. unfold Concl in H.
+  pose proof (rblk_run g n c L GB r ZOpen 1 l1 [] B LI ltac:(lia) FR') as H. unfold Concl in H.
   assert (S0 : gstep false (local0 c n) TOpen = Ok l1) by reflexivity.
   assert (SJ : gstep false g TOpen = Ok (rjoin g l1)).
   { rewrite <- (rjoin_local0 g c C P) at 1. fold n. reflexivity. }
